@@ -23,6 +23,9 @@ claimed={
  "C06": dict(level="model_checking", engine="vsched", design="7 C06", technique=E1+" plus exhaustive message histories up to depth 2/3",
    text="The real server (service.New/Run over a virtual listener) is driven with every history of 1..2 (thorough 3) terminal messages over the default IDs/versions/serials and a 65540-message wrap run under the run-to-block schedule, and with representative one- and two-connection histories under all schedules within 2 (thorough 3) deviations; replies, their order, platform serials and callback counts/order are compared with a reference reply table.",
    note="Scheduling points are channel/socket/once/sleep operations; the socket is the vnet byte-stream model; reply table harness/ref/reply.go."),
+ "C07": dict(level="exploration", engine="venum", design="7 C07", technique=E2,
+   text="For ~35 two-way message types (all versions where layouts differ, five dialects) a generator enumerates in-domain values (full products of boundary menus where <= 10^6, otherwise all pairs plus single sweeps; lists of 0..3 (thorough 4, some 255) elements; every terminal parameter ID and all pairs); each value must satisfy Parse(Encode(v)) == v, Encode(Parse(Encode(v))) == Encode(v) and Encode(v) == an independent reference encoder. Helpers: BCD phone/time conversions on every byte value per position and position pair, UTF82GBK(GBK2UTF8(x)) on every GBK code point, String2FillingBytes for all (len,size) <= 40.",
+   note="Reference encoders harness/checks/c07_ref.go + harness/ref/bodies07.go; no independent reference for the HLJ/HN/SC alarm-sign widths (round-trip oracles only there). Non-ASCII text only in fields the library itself converts to GBK. Known findings: parameters 0x18/0x19/0x21 (golden-pinned), 2011 registration with long plate, two GBK code points of x/text."),
  "C09": dict(level="model_checking", engine="vsched", design="7 C09", technique=E1,
    text="For 24 scenarios (8 histories x 3 delivery modes) all schedules of reader, writer and terminal within 2 (thorough 3) deviations are executed on the real connection code; every Message kept from a read callback is compared with its snapshot at every later callback and at quiescence, replies and reassembled bodies with the reference computed from the snapshots.",
    note="Same trusted base as C06."),
@@ -38,12 +41,21 @@ claimed={
  "C13": dict(level="model_checking", engine="vsched", design="7 C13", technique=E1+" with disconnect/reset/write-failure injection at every script point",
    text="The terminal closes or resets before join, after join, after k commands were written, after answering all or some, or never answers, with k=0..2 (thorough 0..5) queued/outstanding commands and write failures as a socket answer; every schedule within 2 (thorough 3) deviations. No goroutine may panic and at quiescence every caller must have returned.",
    note="'Within its timeout plus slack' is decided as eventual return in every maximal execution with timers as events."),
+ "C19": dict(level="exploration", engine="venum", design="7 C19", technique=E2.replace("against a reference model","with a path-confinement oracle on a logging file-system shim"),
+   text="Complete upload sessions with the default file handler are run for 4 400+ announced names (all strings of length 1..6 over {a . /}, leading '/', embedded NUL, '../' up to the wire limit, names resolving to existing files) x 3 phones x 2 segmentations; every create/write target the handler asks for is logged by the vos shim (and only carried out inside a virtual sandbox) and must lie under <root>/<phone>/.",
+   note="os calls of attachment/file_event.go are routed to harness/vos by vgen's import rewriting; lexical path resolution (no symlinks)."),
  "C18": dict(level="model_checking", engine="vsched", design="7 C18", technique=E1+", every explored schedule executed under the Go race runtime with only the program's own happens-before edges visible",
    text="The scenario families of C06/C09/C11/C12/C13 are explored in the -race build with 2 (thorough 3) deviations; token hand-offs are hidden from the race runtime (RaceDisable) and exactly the Go-memory-model edges of channel operations, sync.Once and go statements are re-created, so each schedule is checked for happens-before races although threads never overlap physically. An idiom corpus (race-free idioms silent, seeded races reported) runs first as a self-test.",
    note="The race runtime can miss a race (4 shadow cells, report de-duplication, incidental sync.Pool edges inside fmt), never invent one. Reports without a repository frame, or raised by a runtime helper called from a shim, abort the check as broken."),
  "C14": dict(level="model_checking", engine="venum", design="7 C14", technique="breadth-first explicit-state search with canonical-state deduplication over packet/time-advance histories on the real reassembler under a virtual clock",
    text="Histories up to depth 6 (thorough 8) over packets of two transfers, a heartbeat and five time advances, plus every non-empty missing set for N=2..6 x idle times x resupply patterns and N=255 families, run on the real packageParse with a virtual clock; a reference model predicts every 0x8003 (first packet's serial, exactly the missing numbers ascending, at most once per 5 s), every completion and every expiry; representative histories run through the real connection (frame on the socket once, next platform serial).",
    note="Exactly 5 s / 60 s is not exercised (boundary side unspecified). Virtual clock only."),
+ "C15": dict(level="model_checking", engine="venum", design="7 C15", technique="exhaustive enumeration of scripted upload sessions (file sets x chunk orders x resends x dialects x read partitions) against the real attachment connection loop",
+   text="The real connection.run is driven over scripted connections for file sets of 1..2 (thorough 3) files, sizes 1..6 (+ one 160 KiB file), chunk sizes 1..3, all chunk orders, a resent chunk at every position, marker-bearing names and alarm IDs, five dialects, and every stream cut one unit per read, coalesced, at every 1-cut and at structural 2-cuts. FileEventer snapshots must report complete only when every byte arrived, with byte-identical content; every control frame gets exactly one prescribed reply with serials 0,1,2...",
+   note="Reference layouts harness/ref/attach.go; connection loop reached through the VerifRunConnection accessor (tag verif)."),
+ "C16": dict(level="model_checking", engine="venum", design="7 C16", technique="exhaustive enumeration of received-chunk sets against a reference interval complement; wire form decoded by reference and by the library's own parser; socket-level replay",
+   text="Package.StatisticalMissSegments is evaluated on every set of pairwise disjoint received chunks for sizes 1..10 (thorough 12) plus 255-gap / adjacent / edge families; T0x1212.ReplyBody->P0x9212.Encode is decoded by the reference and by P0x9212.Parse; for sizes <= 5 every chunk set in every order is played over the real connection: first report = exactly the gaps, after resending them the second report = complete.",
+   note="More than 255 gaps cannot be expressed on the wire and is outside the property."),
  "C17": dict(level="exploration", engine="venum", design="7 C17", technique=E2,
    text="Packets from a reference encoder (all 16 data types x 16 sub-package marks x PT/M/attr menus x payload lengths around 0, 950 and 65535), all sequences of 1..2 (thorough 3) packets from a 29-packet menu and every prefix of them, plus arbitrary short strings, are decoded from the front with a fresh and with a reused Packet and compared field by field with a reference reader; truncations must be classified short/unqualified.",
    note="Trusts harness/ref/rtp.go (JT/T 1078 table 19)."),
